@@ -493,6 +493,9 @@ func (f *c11Family) scaleOps(rng *rand.Rand, parents int) (ops []c11Op, tags []s
 		if rng.Intn(6) == 0 {
 			op.PSel = c11Cond{Kind: "gt", K: rng.Intn(parents/2 + 1), Style: "where"}
 		}
+		if rng.Intn(7) == 0 {
+			op.Ctx = []string{"tx", "prepare", "conn", "txprepare"}[rng.Intn(4)]
+		}
 		ops, tags = append(ops, op), append(tags, tag)
 	}
 	idf := c11Cond{Style: "idfunc"}
@@ -619,6 +622,9 @@ func c11ScaleOpen(sc c11ScaleCase) *c11ScaleDB {
 	return &c11ScaleDB{key: fmt.Sprint(sc.Family, sc.Parents, sc.Seed, sc.Rels), w: w, close: closeFn,
 		run: func(cs c11Case) ([]string, []string, error) {
 			defer rec.Reset()
+			if cs.Op.Ctx == "tx" || cs.Op.Ctx == "txprepare" {
+				return c11RunCaseInTx(f, cs) // a fresh database: the world is inserted inside the transaction
+			}
 			return c11ExecCase(db, nil, cs)
 		}}
 }
@@ -761,6 +767,9 @@ func c11ScaleSuite(r *Result, rng *rand.Rand, tier string) {
 			r.H("scale.parents", c11ScaleBucket(pl.p))
 			if sc.Op.Unscoped {
 				r.H("scale.flags", "unscoped")
+			}
+			if sc.Op.Ctx != "" {
+				r.H("scale.flags", "ctx="+sc.Op.Ctx)
 			}
 			c11JudgeScale(r, sc, sdb)
 		}
